@@ -217,7 +217,9 @@ Upd(hh, pre, e, post) ==
                                ELSE @]
     [] e.e = "Cancel" ->
          LET ownDial == {d \in 1..NConnO(post) : post.conn[d].by = e.r /\ pre.conn[d].dial \in {"connecting", "handshaking"}}
+             back == Get(hh.reserved, e.r, 0)      \* a connection taken from the pool and never used goes back to it
          IN [hh EXCEPT !.reserved = Put(@, e.r, 0, 0),
+                       !.backAt = IF e.stage = "checkout" /\ back # 0 THEN Put(@, back, l + 1, 0) ELSE @,
                        !.aband = IF e.stage = "checkout" THEN @ \cup ownDial ELSE @,
                        !.att = IF e.stage = "checkout" /\ ~hh.cfg.cap THEN @ \ {e.r} ELSE @]
     [] e.e = "Bg" ->
